@@ -13,7 +13,7 @@ CLAIMED = {
                   "multiplicities for real sequences, and model fourier_agg = spatial_agg for D = 1 and every n; the Sobolev split and the H1 closed form (weights 1 + |2 pi k / L|^2); "
                   "Cauchy-Schwarz via the Lagrange identity, corr^2 = corr2, -1 <= corr <= 1, +-1 for proportional fields. The extracted metric model is compared in exact rationals with the "
                   "real functions (MSE/nMSE/sMSE, fourier_*, H1_*, correlation, mean_metric, scaling array, band mask).",
-             note="PARTIAL: the full-spectrum Parseval identity is proved in every dimension (D-fold iterate of the 1-D transform); the folding onto the stored half spectrum for D >= 2 and resolution independence are decided on the real code only (independent NumPy quadrature, closed-form "
+             note="PARTIAL: Parseval is proved in every dimension for the D-fold iterate of the 1-D transform, both over the full spectrum and folded onto the stored half spectrum of a real field (Hermitian symmetry, multiplicities 1/2 on the last axis); the identification of the model's own index list and weights with that sum for D >= 2, and resolution independence, are decided on the real code only (independent NumPy quadrature, closed-form "
                   "trigonometric polynomials, map_between_resolutions). The absolute 1e-5 coefficient floor of fourier_aggregator is not modelled (statements are about spectra the floor leaves "
                   "untouched, as the property says); p = 1 metrics are witness-only; sqrt enters as an abstract root function.",
              technique="Rocq proof (field identities, lia on band arithmetic, 1-D DFT Parseval, Lagrange identity) + exact-rational correspondence + independent quadrature oracle", design="§4 C16"),
@@ -62,14 +62,14 @@ CLAIMED = {
                   "dispersion symbols are purely imaginary, the order-2 / order-4 Laplace symbols are -sum kappa^2 / +sum kappa^4 (real), so diffusion and hyper-diffusion with non-negative "
                   "coefficients have non-positive real part; a mode multiplied by E with |E|^2 <= 1 does not grow (equality for |E|^2 = 1); the Parseval-weighted sum over all modes is monotone; the "
                   "real inverse transform contracts (|Re c| <= |c|); the wave stepper conserves |v|^2 + (c rho)^2 |h|^2 per mode. Symbols tied to the code by exact correspondence at every stored mode.",
-             note="|exp z| = exp(Re z) and Parseval with the half-spectrum weights are used, not proved here; full-matrix diffusion sign (kappa^T A kappa >= 0 for SPD A) is checked on the real code "
+             note="|exp z| = exp(Re z) is used, not proved; Parseval with the half-spectrum weights is proved in the C16 development (every D); full-matrix diffusion sign (kappa^T A kappa >= 0 for SPD A) is checked on the real code "
                   "(white noise, strong off-diagonals, dt up to 1e6, every single mode), as are exact norm / wave-energy preservation.",
              technique="Rocq proof (ordered-field reasoning on sums, complex modulus algebra) + exact symbol correspondence + norm oracle on the real code", design="§4 C11"),
  "C17": dict(text="Theorems: bin b collects exactly the modes with (2b-1)^2 <= 4|k|^2 < (2b+1)^2 (b = round|k|, half-open bins), bins are disjoint, every mode inside the Nyquist sphere lies in exactly one "
                   "bin 0..N/2 and modes outside in none (all N, D, k; integer square-root argument); 4|k|^2 is never an odd square, so the floating comparison cannot sit on a boundary; the amplitude "
                   "quantity of a stored mode of a cos is a and the power weights are the Parseval weights wgt|u_hat|^2/(2N^2D). Whole spectra (power/amplitude x sum/average, multi-channel) are "
                   "compared with the extracted model on every run (exact rationals on float magnitudes).",
-             note="The Parseval identity itself (sum over stored modes = mean square / 2) is checked on the real code (and proved conjugation-free in 1-D in the C16 development); |.| of the FFT is an input "
+             note="The Parseval identity itself (sum over stored modes with the multiplicities 1/2 = N^D sum of squares) is proved for real fields in every dimension in the C16 development (Metrics/ParsevalRealD.v) and checked on the real code; |.| of the FFT is an input "
                   "of the model (sqrt is not modelled).",
              technique="Rocq proof (integer arithmetic incl. Z.sqrt, field identities) + exact correspondence of whole spectra", design="§4 C17"),
  "C19": dict(text="PARTIAL (what is logic is proved, IEEE/XLA behaviour is decided on the real code). Theorems over any field (complex over any formally real field for the axes): every ETDRK "
